@@ -4,7 +4,7 @@ from props.m2common import *  # noqa: F401,F403
 from props.m2common import g, sx, rng_for, fl, close, same, is_err, env_points, ref_value_at
 
 PID = "C08"
-KERNELS = ['K_scale', 'K_value_at']   # translated from /repo on every run, tied to the model by coq/Gen/<name>_eq.v
+KERNELS = ['K_scale', 'K_value_at', 'K_of_points']   # translated from /repo on every run, tied to the model by coq/Gen/<name>_eq.v
 RUNNER = "impl_m2.py"
 N = {"quick": 2500, "thorough": 80000}
 LEVEL_RULE = ("envelopes (plain and FlexTempo) with 1-7 control points, repeated times up to 35 %, values up to +-1e3, curve shapes "
